@@ -100,6 +100,8 @@ FALL = ('fall',)     # block completed normally
 
 
 class Evaluator:
+    TRACE = set()          # qualified names of every package function consulted by any evaluator instance
+
     def __init__(self, program: Program, backend='ecdsa', summaries=None, trace=False):
         assert backend in ('secp', 'ecdsa')
         self.p = program
@@ -113,6 +115,7 @@ class Evaluator:
         self._modconst_cache = {}
         self._stack = []
         self.reads = []
+        self.asserts = []
         self.steps = 0
         T.PHI_BUDGET[0] = 0
         self.exits = []
@@ -187,6 +190,7 @@ class Evaluator:
         if depth > MAX_DEPTH:
             return T.opaque('inline depth exceeded at %s' % fi.qual), facts
         key = fi.qual[len(PKG) + 1:] if fi.qual.startswith(PKG + '.') else fi.qual
+        Evaluator.TRACE.add(fi.qual)
         if self._stack:
             self.calls.append((self._stack[-1], key))
         else:
@@ -234,6 +238,7 @@ class Evaluator:
         if init is None:
             return me, facts
         key = init.qual[len(PKG) + 1:]
+        Evaluator.TRACE.add(init.qual)
         self.calls.append((self._stack[-1] if self._stack else None, key))
         env = self._bind(init, [me] + args, kwargs, facts, depth)
         if env is None:
@@ -354,13 +359,11 @@ class Evaluator:
         return T.raise_(name)
 
     def st_Assert(self, st, fr):
-        c = self.decide(T.truth(self.expr(st.test, fr)), fr)
-        if c == T.TRUE:
-            return FALL
-        if c == T.FALSE:
-            return T.raise_('AssertionError')
-        fr.facts = fr.facts.add(c)
-        return T.phi(c, FALL, T.raise_('AssertionError'))
+        # An `assert` is not a guard: it disappears under `python -O`, so it establishes no must-fact and no
+        # rejecting exit (the weaker of the two semantics is taken, for every configuration of the interpreter).
+        self.expr(st.test, fr)
+        self.asserts.append((fr.fn.qual if fr.fn else None, st.lineno))
+        return FALL
 
     def st_Assign(self, st, fr):
         v = self.expr(st.value, fr)
